@@ -269,7 +269,24 @@ func checkRecover(c *core.Ctx, fn *ssa.Function, rec *core.Site) {
 	c.Check(vOK, "C23.sig", key+"/v-27", val.Pos(), "the validated recovery id is byte(V − 27)", "the validated recovery id is not byte(V − 27)")
 	// the recovered signature bytes come from R.Bytes(), S.Bytes() and the validated v
 	sig := core.Unwrap(rec.Arg(1))
-	dep := func(p ssa.Value) bool {
+	var depIn func(sig ssa.Value, p ssa.Value, depth int) bool
+	dep := func(p ssa.Value) bool { return depIn(sig, p, 0) }
+	depIn = func(sig ssa.Value, p ssa.Value, depth int) bool {
+		// built by a helper of the package (encodeSignature(R, S, V)): look at what it returns
+		if call, ok := sig.(*ssa.Call); ok && depth < 2 {
+			if h := call.Call.StaticCallee(); h != nil && h.Blocks != nil && h.Pkg == call.Parent().Pkg {
+				for i, a := range call.Call.Args {
+					if core.Unwrap(a) != p || i >= len(h.Params) {
+						continue
+					}
+					for _, o := range core.ResultOrigins(h, 0) {
+						if depIn(core.Unwrap(o), h.Params[i], depth+1) {
+							return true
+						}
+					}
+				}
+			}
+		}
 		if sig.Referrers() == nil {
 			return false
 		}
